@@ -224,6 +224,14 @@ func (m *Model) valid(sn any, v any, p Pos) Verdict {
 		if err != nil {
 			return Unspec
 		}
+		if p.Kind == "addl" && v != nil && m.dev("ADDL_NONPRIMITIVE_UNTYPED") {
+			// as built: additionalProperties given by reference next to properties is not one of the primitive cases: the catch-all
+			// field is map[string]interface{} and nothing is checked
+			if m.valid(t, v, Pos{Kind: "root", Named: true, File: file}) != Accept {
+				m.fire("ADDL_NONPRIMITIVE_UNTYPED")
+			}
+			return Accept
+		}
 		np := p
 		np.File = file
 		np.Named = true
